@@ -7,6 +7,8 @@ AS_H = 'src/tbb/arena_slot.h'
 TD_CPP = 'src/tbb/task_dispatcher.cpp'
 PF_H = 'include/oneapi/tbb/parallel_for.h'
 MB_H = 'src/tbb/mailbox.h'
+CO_H = 'include/oneapi/tbb/collaborative_call_once.h'
+ETS_H = 'include/oneapi/tbb/enumerable_thread_specific.h'
 FE_CPP = 'src/tbbmalloc/frontend.cpp'
 AR_CPP = 'src/tbb/arena.cpp'
 FGJ_H = 'include/oneapi/tbb/detail/_flow_graph_join_impl.h'
@@ -652,6 +654,29 @@ MUTANTS = [
     dict(name='c18-user-pool-maps-os', prop='C18', clause='D3', edits=[
         ('src/tbbmalloc/backend.cpp', "        allocSize = alignUpGeneric(size, extMemPool->granularity);\n        res = (*extMemPool->rawAlloc)(extMemPool->poolId, allocSize);",
          "        allocSize = alignUpGeneric(size, extMemPool->granularity);\n        res = (*extMemPool->rawAlloc)(extMemPool->poolId, allocSize);\n        if (!res) res = getRawMemory(allocSize, REGULAR);")]),
+    # ---------------------------------------------------------------- C19
+    dict(name='c19-guard-after-fetch_sub', prop='C19', clause='D2', edits=[
+        (CO_H, "                    collaborative_once_runner::lifetime_guard guard{*shared_runner};\n                    m_state.fetch_sub(1);",
+         "                    m_state.fetch_sub(1);\n                    collaborative_once_runner::lifetime_guard guard{*shared_runner};")]),
+    dict(name='c19-no-exception-reset', prop='C19', clause='D3', edits=[
+        (CO_H, "                    try_call([&] {\n                        std::forward<Fn>(f)();\n                    }).on_exception([&] {\n                        // Reset the state to uninitialized to allow other threads to try initialization again\n                        set_completion_state(runner.to_bits(), state::uninitialized);\n                    });",
+         "                    std::forward<Fn>(f)();")]),
+    dict(name='c19-helper-ref-unguarded', prop='C19', clause='D1', edits=[
+        (CO_H, "                } while (expected > state::done && !m_state.compare_exchange_strong(expected, expected + 1));", "                } while (!m_state.compare_exchange_strong(expected, expected + 1));")]),
+    dict(name='c19-runner-dtor-no-wait', prop='C19', clause='D2', edits=[
+        (CO_H, "        spin_wait_until_eq(m_ref_count, 0, std::memory_order_acquire);\n        if (m_is_ready.load(std::memory_order_relaxed)) {", "        if (m_is_ready.load(std::memory_order_relaxed)) {")]),
+    dict(name='c19-ready-relaxed', prop='C19', clause='D2', edits=[
+        (CO_H, "                m_is_ready.store(true, std::memory_order_release);", "                m_is_ready.store(true, std::memory_order_relaxed);")]),
+    dict(name='c19-assist-no-ready-wait', prop='C19', clause='D2', edits=[
+        (CO_H, "        spin_wait_while_eq(m_is_ready, false);\n        m_storage.m_arena.execute([&] {\n            isolated_execute([&] {\n                // We do not want", "        m_storage.m_arena.execute([&] {\n            isolated_execute([&] {\n                // We do not want")]),
+    dict(name='c19-runner-alignment', prop='C19', clause='D4', edits=[
+        (CO_H, "class alignas(max_nfs_size) collaborative_once_runner : no_copy {", "class alignas(16) collaborative_once_runner : no_copy {")]),
+    dict(name='c19-slot-claim-store', prop='C19', clause='D5', edits=[
+        (ETS_H, "            key_type expected = key_type();\n            return key.compare_exchange_strong(expected, k);", "            if (key.load(std::memory_order_relaxed) != key_type()) return false;\n            key.store(k, std::memory_order_relaxed); return true;")]),
+    dict(name='c19-ptr-before-claim', prop='C19', clause='D5', edits=[
+        (ETS_H, "        if( s.empty() ) {\n            if( s.claim(k) ) {\n                s.ptr = found;\n                return found;\n            }\n        }", "        if( s.empty() ) {\n            s.ptr = found;\n            if( s.claim(k) ) {\n                return found;\n            }\n        }")]),
+    dict(name='c19-root-store', prop='C19', clause='D5', edits=[
+        (ETS_H, "                if( my_root.compare_exchange_strong(new_r, a) ) break;", "                if( my_root.load(std::memory_order_relaxed) == new_r ) { my_root.store(a, std::memory_order_release); break; }")]),
 ]
 
 BENIGN = [
